@@ -28,6 +28,21 @@ class _Return(Exception):
         self.v = v
 
 
+class _Break(Exception):
+    pass
+
+
+class _Continue(Exception):
+    pass
+
+
+# exceptions of the verifier itself: never caught by interpreted `except` clauses
+def _is_control(exc):
+    from .ctx import Infeasible
+
+    return isinstance(exc, (_Return, _Break, _Continue, Undecided, Infeasible))
+
+
 class Env:
     __slots__ = ("vars", "parent", "kind", "cls")
 
@@ -361,6 +376,7 @@ class Interp:
         self.world = world
         self.depth = 0
         self.stack = []
+        self._handling = []
 
     # ---- function invocation
     def invoke(self, clo: Closure, args, kwargs):
@@ -463,7 +479,9 @@ class Interp:
 
     def s_Raise(self, s, env, mod, fn):
         if s.exc is None:
-            raise Undecided("bare raise")
+            if self._handling:
+                raise self._handling[-1]
+            raise RuntimeError("No active exception to reraise")
         exc = self.eval(s.exc, env, mod)
         if isinstance(exc, type):
             exc = exc()
@@ -475,8 +493,6 @@ class Interp:
         it = self.eval(s.iter, env, mod)
         if isinstance(it, SymRange) or hasattr(it, "pyvc_symbolic_iter"):
             return self._sym_for(s, it, env, mod, fn)
-        if s.orelse:
-            raise Undecided("for-else")
         cut = None
         if fn is not None and self.world.loop_specs:
             fenv = env
@@ -494,9 +510,102 @@ class Interp:
 
                 cut_point(self, cut, k, env)
             self.assign(s.target, v, env, mod)
-            self.exec_block(s.body, env, mod, fn)
+            try:
+                self.exec_block(s.body, env, mod, fn)
+            except _Continue:
+                pass
+            except _Break:
+                if cut is not None:
+                    raise Undecided("break out of a loop with a cut point") from None
+                break
             if cut is not None and cut.after is not None:
                 cut.after(k, {name: env.lookup(name) for name in list(cut.variables) + list(getattr(cut, "observe", ()))})
+        else:
+            self.exec_block(s.orelse, env, mod, fn)
+
+    def s_While(self, s, env, mod, fn):
+        n = 0
+        while self.truth(self.eval(s.test, env, mod)):
+            n += 1
+            if n > 10000:
+                raise Undecided(f"while loop at {mod.name}:{s.lineno} exceeds 10000 iterations")
+            try:
+                self.exec_block(s.body, env, mod, fn)
+            except _Continue:
+                continue
+            except _Break:
+                break
+        else:
+            self.exec_block(s.orelse, env, mod, fn)
+
+    def s_Nonlocal(self, s, env, mod, fn):
+        for name in s.names:
+            e = env.parent
+            while e is not None and not (e.kind == "function" and name in e.vars):
+                e = e.parent
+            if e is None:
+                raise Undecided(f"nonlocal {name}: no binding found at {mod.name}:{s.lineno}")
+            env.vars.setdefault("__nonlocal__", {})[name] = e
+
+    def s_Global(self, s, env, mod, fn):
+        for name in s.names:
+            e = env
+            while e.parent is not None:
+                e = e.parent
+            env.vars.setdefault("__nonlocal__", {})[name] = e
+
+    def s_Break(self, s, env, mod, fn):
+        raise _Break
+
+    def s_Continue(self, s, env, mod, fn):
+        raise _Continue
+
+    def s_Delete(self, s, env, mod, fn):
+        for t in s.targets:
+            if isinstance(t, ast.Name):
+                if t.id not in env.vars:
+                    raise Undecided(f"del of a name that is not local at {mod.name}:{s.lineno}")
+                del env.vars[t.id]
+            elif isinstance(t, ast.Subscript):
+                obj = self.eval(t.value, env, mod)
+                key = self.eval(t.slice, env, mod)
+                if isinstance(obj, (dict, list)):
+                    self.store_hook(obj, "delitem", key)
+                    del obj[conc(key) if isinstance(key, T) else key]
+                else:
+                    raise Undecided(f"del of an item of {type(obj).__name__}")
+            else:
+                raise Undecided(f"del target {type(t).__name__}")
+
+    def s_With(self, s, env, mod, fn):
+        exits = []
+        try:
+            for item in s.items:
+                cm = self.eval(item.context_expr, env, mod)
+                enter, exit_ = getattr(type(cm), "__enter__", None), getattr(type(cm), "__exit__", None)
+                if enter is None or exit_ is None:
+                    raise Undecided(f"with-statement on {type(cm).__name__} at {mod.name}:{s.lineno}")
+                v = cm.__enter__()
+                exits.append(cm)
+                if item.optional_vars is not None:
+                    self.assign(item.optional_vars, v, env, mod)
+            self.exec_block(s.body, env, mod, fn)
+        except BaseException as exc:  # noqa: BLE001
+            if _is_control(exc) or not isinstance(exc, Exception):
+                for cm in reversed(exits):
+                    cm.__exit__(None, None, None)
+                raise
+            suppressed = False
+            for cm in reversed(exits):
+                if cm.__exit__(type(exc), exc, exc.__traceback__):
+                    suppressed = True
+                    exc = None
+                    break
+            if not suppressed:
+                raise
+        else:
+            for cm in reversed(exits):
+                cm.__exit__(None, None, None)
 
     def s_Import(self, s, env, mod, fn):
         for a in s.names:
@@ -580,16 +689,36 @@ class Interp:
         env.vars[s.name] = cls
 
     def s_Try(self, s, env, mod, fn):
-        # only `try: import x  except ImportError: ...` at module top level is supported
         try:
-            self.exec_block(s.body, env, mod, fn)
-        except ImportError:
-            for h in s.handlers:
-                self.exec_block(h.body, env, mod, fn)
-                break
-        else:
-            self.exec_block(s.orelse, env, mod, fn)
-        self.exec_block(s.finalbody, env, mod, fn)
+            try:
+                self.exec_block(s.body, env, mod, fn)
+            except Exception as exc:  # noqa: BLE001 - an exception of the interpreted program
+                if _is_control(exc):
+                    raise
+                for h in s.handlers:
+                    if h.type is None:
+                        match = True
+                    else:
+                        ht = self.eval(h.type, env, mod)
+                        match = isinstance(exc, ht if isinstance(ht, tuple) else (ht,))
+                    if match:
+                        if h.name:
+                            env.vars[h.name] = exc
+                        self._handling.append(exc)
+                        try:
+                            self.exec_block(h.body, env, mod, fn)
+                        finally:
+                            self._handling.pop()
+                            if h.name:
+                                env.vars.pop(h.name, None)
+                        break
+                else:
+                    raise
+            else:
+                self.exec_block(s.orelse, env, mod, fn)
+        finally:
+            if s.finalbody:
+                self.exec_block(s.finalbody, env, mod, fn)
 
     def s_Assert(self, s, env, mod, fn):
         c = self.eval(s.test, env, mod)
@@ -605,7 +734,11 @@ class Interp:
     # ---- assignment
     def assign(self, target, v, env, mod):
         if isinstance(target, ast.Name):
-            env.vars[target.id] = v
+            redirect = env.vars.get("__nonlocal__")
+            if redirect is not None and target.id in redirect:
+                redirect[target.id].vars[target.id] = v
+            else:
+                env.vars[target.id] = v
         elif isinstance(target, (ast.Tuple, ast.List)):
             vals = list(_iterate(v))
             star = [i for i, e in enumerate(target.elts) if isinstance(e, ast.Starred)]
@@ -664,6 +797,14 @@ class Interp:
 
     def e_Constant(self, e, env, mod):
         return e.value
+
+    def e_NamedExpr(self, e, env, mod):
+        v = self.eval(e.value, env, mod)
+        tgt = env
+        while tgt.kind == "comp" and tgt.parent is not None:
+            tgt = tgt.parent
+        tgt.vars[e.target.id] = v
+        return v
 
     def e_Name(self, e, env, mod):
         try:
